@@ -241,6 +241,17 @@ def block_handler(kind, cap, executed, first):
                 c.wait(Duration(5), name="nap")
                 return "n"
             ctx.parallel([quick, napper], name="BLOCK")
+        elif kind == 3:
+            # a context recorded with ReplayChildren (oversized result) NESTED in a context that completed normally (small result)
+            def inner(c2):
+                c2.step(lambda s: 1, name="p")
+                return BIGV
+
+            def outer(c):
+                c.run_in_child_context(inner, name="inner")
+                c.step(lambda s: 2, name="q")
+                return "small"
+            ctx.run_in_child_context(outer, name="BLOCK")
         else:
             # tolerated failure + oversized result: recorded as summary with ReplayChildren, rebuilt by replay()
             def item(c, x, i, items):
@@ -274,7 +285,7 @@ if h.MODE == "sx":
 
 
 def _mk_block(kind):
-    names = ["early_completion", "in_flight", "large_with_failed_item"]
+    names = ["early_completion", "in_flight", "large_with_failed_item", "nested_large_child"]
 
     def lem(first: int, psel: int, ci: int, cc: int):
         """
@@ -327,7 +338,7 @@ def _mk_block(kind):
                           "history page size none/2/4; optional process crash after API call 1..6 of invocation 1")(lem)
 
 
-for _k in range(3):
+for _k in range(4):
     _f = _mk_block(_k)
     globals()[_f.__name__] = _f
 del _f, _k
